@@ -12,10 +12,12 @@ theorem Inv.kill {P : Program} {s s' : St}
     (h1 : s'.env = s.env) (h2 : s'.epoch = s.epoch) (h3 : s'.mem = killInflight s)
     (h4 : s'.db = s.db) (h5 : s'.dbIter = s.dbIter) (h6 : s'.status = s.status) (h7 : s'.task = s.task)
     (h8 : s'.pending = s.pending) (h9 : s'.target = s.target) (h10 : s'.started = s.started)
-    (h11 : s'.validSeen = s.validSeen)
+    (h11 : s'.validSeen = s.validSeen) (h12 : s'.registered = s.registered) (h13 : s'.sigAt = s.sigAt)
     (hi : Inv P s) : Inv P s' := by
   have ha : active s' ↔ active s := active_congr h10
   have hf : ∀ k, inflight s' k = inflight s k := inflight_congr h6
+  have hsg : ∀ x, (s'.mem.res x).sig = (s.mem.res x).sig := by
+    intro x; rw [h3]; simp only [killInflight]; split <;> rfl
   have hv : ∀ x, (s'.mem.res x).value = (s.mem.res x).value := by
     intro x; rw [h3]; simp only [killInflight]; split <;> rfl
   have hc : ∀ x, (s'.mem.res x).computedAt = (s.mem.res x).computedAt := by
@@ -64,8 +66,9 @@ theorem Inv.kill {P : Program} {s s' : St}
     rw [hbn x hnx] at hbx
     obtain ⟨g, f⟩ := hi.good x hbx hnx
     constructor
-    · exact GoodRec.frame (σ := s.mem) (by rw [hseq]) (by rw [hdisc]) (by rw [henv]) (hv x)
-        (by intro y hy; rw [hdp]; exact hy) g
+    · intro hso; rw [hsg] at hso
+      exact GoodRec.frame (σ := s.mem) (by rw [hseq]) (by rw [hdisc]) (by rw [henv]) (hv x)
+        (by intro y hy; rw [hdp]; exact hy) (g hso)
     · rw [h8]
       apply FreshRec.mono (σ := s.mem) (by rw [hseq]) (by rw [hdisc]) (hble x) _ _ f
       · intro y; left; rw [hv, hc]; exact ⟨rfl, Nat.le_refl _⟩
@@ -90,15 +93,17 @@ theorem Inv.kill {P : Program} {s s' : St}
     · intro hcmp; rw [h6] at hcmp; rw [h7, hv, h1]; exact t.computing hcmp
   · intro x hfl; rw [hf] at hfl; exact ha.2 (hi.inflightActive x hfl)
   · intro x hx hvs; rw [h6] at hx; rw [h11] at hvs
-    rw [h1, hv, hbn x (by simp [inflight, hx])]; exact hi.validOk x hx hvs
+    rw [h1, hv, hbn x (by simp [inflight, hx]), hsg, h13]; exact hi.validOk x hx hvs
   · rw [h9, h6, h11]; exact hi.validIdle
+  · rw [h12, h13]; exact hi.sigAtOk
+  · rw [h6, h12]; exact hi.scanReg
 
 /-- end of a build: everything returns to idle (nothing live is in flight) -/
 theorem Inv.goIdle {P : Program} {s s' : St}
     (h1 : s'.env = s.env) (h2 : s'.epoch = s.epoch) (h3 : s'.mem = s.mem)
     (h4 : s'.db = s.db) (h5 : s'.dbIter = s.dbIter) (h6 : s'.status = fun _ => .idle) (h7 : s'.task = s.task)
     (h8 : s'.pending = s.pending) (h9 : s'.target = none) (h10 : s'.started = false)
-    (h11 : s'.validSeen = s.validSeen)
+    (h11 : s'.validSeen = s.validSeen) (h12 : s'.registered = s.registered) (h13 : s'.sigAt = s.sigAt)
     (hdead : ∀ x, inflight s x = true → (s.mem.res x).builtAt = 0)
     (hpe : s.pending = []) (hit : s.dbIter = s.epoch)
     (hi : Inv P s) : Inv P s' := by
@@ -132,13 +137,15 @@ theorem Inv.goIdle {P : Program} {s s' : St}
   · intro x hfl; rw [hnf'] at hfl; cases hfl
   · intro x hx; rw [h6] at hx; cases hx
   · intro h; rw [h9] at h; cases h
+  · rw [h12, h13]; exact hi.sigAtOk
+  · intro x hx; rw [h6] at hx; cases hx
 
 /-- a new engine over the same database -/
 theorem Inv.restart {P : Program} {s s' : St}
     (h1 : s'.env = s.env) (h2 : s'.epoch = s.dbIter) (h3 : s'.mem = s.db)
     (h4 : s'.db = s.db) (h5 : s'.dbIter = s.dbIter) (h6 : s'.status = fun _ => .idle) (h7 : s'.task = s.task)
     (h8 : s'.pending = s.pending) (h9 : s'.target = s.target) (h10 : s'.started = s.started)
-    (h11 : s'.validSeen = s.validSeen)
+    (h11 : s'.validSeen = s.validSeen) (h12 : s'.registered = fun _ => false)
     (ht : s.target = none)
     (hi : Inv P s) : Inv P s' := by
   have hit := hi.iterEq (Or.inl ht)
@@ -172,6 +179,8 @@ theorem Inv.restart {P : Program} {s s' : St}
   · intro x hfl; rw [hnf'] at hfl; cases hfl
   · intro x hx; rw [h6] at hx; cases hx
   · intro h; rw [h9, ht] at h; cases h
+  · intro x hx; rw [h12] at hx; cases hx
+  · intro x hx; rw [h6] at hx; cases hx
 
 end LLBuild.Engine
 
@@ -192,6 +201,7 @@ theorem Inv.commit {P : Program} {s s' : St}
     (h1 : s'.env = s.env) (h2 : s'.epoch = s.dbIter) (h3 : s'.mem = s.db)
     (h4 : s'.db = s.db) (h5 : s'.dbIter = s.dbIter) (h6 : s'.status = fun _ => .idle)
     (h8 : s'.pending = []) (h9 : s'.target = none) (h10 : s'.started = false)
+    (h12 : s'.registered = fun _ => false)
     (hit : s.dbIter = s.epoch) (hpe : s.pending = [])
     (hi : Inv P s) : Inv P s' := by
   have hnf' : ∀ x, inflight s' x = false := by intro x; simp [inflight, h6]
@@ -222,5 +232,7 @@ theorem Inv.commit {P : Program} {s s' : St}
   · intro x hfl; rw [hnf'] at hfl; cases hfl
   · intro x hx; rw [h6] at hx; cases hx
   · intro h; rw [h9] at h; cases h
+  · intro x hx; rw [h12] at hx; cases hx
+  · intro x hx; rw [h6] at hx; cases hx
 
 end LLBuild.Engine
